@@ -64,7 +64,9 @@ Definition agrees (c : case) : bool :=
 
 Definition c18_ok (c : case) : bool :=
   forallb (fun i => ranked_b (rk_of (c_rank c)) [] (project_thread i (c_lock_events c))) (seq 0 (c_nthreads c))
-  && c_completed c.
+  && c_completed c
+  (* ... nor lose work: every accepted change is present exactly once, in the log and in the views *)
+  && c_versions_consecutive c && c_none_lost_or_doubled c.
 
 Definition c07_ok (c : case) : bool :=
   well_locked [] (c_trace c) && c_versions_consecutive c && c_none_lost_or_doubled c && c_history_complete c.
